@@ -64,6 +64,18 @@ func mutateIDs(c *fw.Ctx, ids []party.ID, self party.ID, class string) []party.I
 			}
 		}
 		out = o
+	case "ids-proper-subset-of-holders", "ids-holder-replaced-by-stranger":
+		// (refresh) every holder of the key must take part: one OTHER holder is left out, or replaced
+		for i := len(out) - 1; i >= 0; i-- {
+			if out[i] != self {
+				if class == "ids-proper-subset-of-holders" {
+					out = append(out[:i:i], out[i+1:]...)
+				} else {
+					out[i] = foreignID
+				}
+				break
+			}
+		}
 	case "ids-empty-identifier":
 		out = append(out, "")
 	case "ids-empty-list":
@@ -266,8 +278,11 @@ func badFrost(c *fw.Ctx) *badCase {
 	case 1:
 		bc.fn = name + ".Refresh"
 		m := scen.PrepMaterial(c, p, ids, t, "prep")
-		classes := []string{"config-nil", "config-zero-value", "ids-duplicate", "ids-without-self", "config-stripped-share", "config-stripped-table"}
+		classes := []string{"config-nil", "config-zero-value", "ids-duplicate", "ids-without-self", "config-stripped-share", "config-stripped-table", "ids-proper-subset-of-holders", "ids-holder-replaced-by-stranger"}
 		bc.class = classes[c.S.Draw(len(classes), "class")]
+		if strings.HasPrefix(bc.class, "ids-proper") && n < 3 {
+			bc.class = "ids-holder-replaced-by-stranger"
+		}
 		for _, id := range ids {
 			id := id
 			pids := ids
